@@ -77,7 +77,7 @@ func ruleC16InitializeGating(c *Ctx) {
 					if !(be.Op == token.NEQ && ft.Pos || be.Op == token.EQL && !ft.Pos) {
 						continue
 					}
-					for _, nd := range b.Nodes {
+					for _, nd := range fl.condNodes(b) {
 						if as, ok := nd.(*ast.AssignStmt); ok && len(as.Rhs) == 1 && ast.Unparen(as.Rhs[0]) == ast.Expr(cs.Call) {
 							return s | failed
 						}
